@@ -5,8 +5,8 @@
            the counter, turned into back-offsets and handed to makeGoodbyeBST.
    Part 2  validate: a reader of catar byte streams written from casync's format rules
            (same rules as harness/pyval/catar.py): element sizes, element order, name order,
-           goodbye offsets / sizes / hashes / tail / search tree.  It returns the tree that
-           the bytes describe.
+           goodbye offsets / sizes / hashes / tail / search tree; name order only when asked
+           (ord: the disk source).  It returns the tree that the bytes describe.
 
    Go                                         here
    ----------------------------------------   ---------------------------------------
@@ -19,7 +19,8 @@
    enc.Encode(x) returning nn                 the element x; nn = enc_len x (length of its
                                               encoding, Model/Format.v)
    sort.Strings(keys) over f.Xattrs           sort_xattrs (keys of a Go map are distinct)
-   tar(ctx, enc, fs, f) (n, err)              tar_node t = (elements written, n)
+   tar(ctx, enc, fs, f) (n, err)              tar_node t = (elements written, n);
+                                              tar_node_v TarPreSkipFix: before commit 0d1baa3
    Tar                                        tar_model t = elements; tar_bytes t
 
    Numbers are N without wrap-around: n is an int64 / uint64 in Go; archives of 2^63 bytes
@@ -107,7 +108,14 @@ Definition head_elems (t : node) : list elem :=
 Definition goodbye_table (items : list item) : list item :=
   match make_goodbye_bst items with Some t => t | None => [] end.
 
+Definition is_other (t : node) : bool := match t with NOther _ _ _ => true | _ => false end.
+
+(* TarFixed: tar.go as it is.  TarPreSkipFix: before commit 0d1baa3 ("tar skips an unsupported node
+   before writing its filename element") -- kept only to state what that fix repaired. *)
+Inductive tar_version := TarFixed | TarPreSkipFix.
+
 Section Children.
+  Variable v : tar_version.
   Variable tar : node -> list elem * N.
   (* the "for { f, err := fs.Next() ... }" loop of the IsDir case: n is the running counter,
      items the goodbye items collected so far (offset still counted from the entry) *)
@@ -115,6 +123,10 @@ Section Children.
     match cs with
     | [] => ([], n, items)
     | (name, c) :: rest =>
+        (* if !(f.IsDir() || f.IsRegular() || f.IsSymlink() || f.IsDevice()) { ...; continue } *)
+        if match v with TarFixed => is_other c | TarPreSkipFix => false end
+        then tar_children rest n items
+        else
         let start := n in
         let fe := filename_elem name in                    (* name := path.Base(f.Name) *)
         let n1 := n + enc_len fe in                        (* nn, err = enc.Encode(filename); n += nn *)
@@ -127,9 +139,9 @@ Section Children.
     end.
 End Children.
 
-Fixpoint tar_node (t : node) : list elem * N :=
+Fixpoint tar_node_v (v : tar_version) (t : node) : list elem * N :=
   match t with
-  | NOther _ _ _ => ([], 0)              (* "skipping ... unsupported node type": return 0, nil *)
+  | NOther _ _ _ => ([], 0)              (* "skipping ... unsupported node type": return 0, nil (the root; before the fix also inside a directory) *)
   | NFile _ _ data =>
       let p := Payload (mkHeader (16 + lenN data) CaFormatPayload) data in
       (head_elems t ++ [p], elems_len (head_elems t) + enc_len p)
@@ -141,7 +153,7 @@ Fixpoint tar_node (t : node) : list elem * N :=
       (head_elems t ++ [d], elems_len (head_elems t) + enc_len d)
   | NDir _ _ children =>
       let n0 := elems_len (head_elems t) in
-      match tar_children tar_node children n0 [] with
+      match tar_children v (tar_node_v v) children n0 [] with
       | (ces, n, items) =>
           (* items[i].Offset = uint64(n) - items[i].Offset *)
           let items := map (fun it => (n - it_offset it, it_size it, it_hash it)) items in
@@ -153,8 +165,11 @@ Fixpoint tar_node (t : node) : list elem * N :=
       end
   end.
 
+(* the code as it is *)
+Definition tar_node (t : node) : list elem * N := tar_node_v TarFixed t.
 Definition tar_model (t : node) : list elem := fst (tar_node t).
 Definition tar_bytes (t : node) : bytes := encode_elems (tar_model t).
+Definition tar_bytes_v (v : tar_version) (t : node) : bytes := encode_elems (fst (tar_node_v v t)).
 
 (* ---------- Part 2: a catar reader from the format rules ---------- *)
 
@@ -263,7 +278,12 @@ Definition check_goodbye (es gs ge : N) (items : list item) (acc : list seen) : 
 (* Phase 2: the grammar  node := ENTRY XATTR* (PAYLOAD | SYMLINK | DEVICE | (FILENAME node)* GOODBYE | nothing)
    by the file type of ENTRY.mode.  Result: the node, the offset after its last element, the
    elements that follow.  Only archives in desync's feature set are accepted (flags = TarFeatureFlags). *)
-Fixpoint parse_node (fuel : nat) (l : list pelem) : option (node * N * list pelem) :=
+(* [ord]: require strictly ascending file names within a directory (casync's rule for archives
+   packed from disk); the tar-stream source keeps the order of the stream. *)
+Definition order_ok (ord : bool) (prev : option bytes) (name : bytes) : bool :=
+  negb ord || match prev with None => true | Some p => bytes_ltb p name end.
+
+Fixpoint parse_node (ord : bool) (fuel : nat) (l : list pelem) : option (node * N * list pelem) :=
   match fuel with
   | O => None
   | S f =>
@@ -295,13 +315,13 @@ Fixpoint parse_node (fuel : nat) (l : list pelem) : option (node * N * list pele
                   | _ => None
                   end
                 else if (ty =? S_IFIFO) || (ty =? S_IFSOCK) then Some (NOther m xs (ty =? S_IFSOCK), le, l2)
-                else if ty =? S_IFDIR then parse_children f l2 es m xs None []
+                else if ty =? S_IFDIR then parse_children ord f l2 es m xs None []
                 else None
             end
     | _ => None
     end
   end
-with parse_children (fuel : nat) (l : list pelem) (es : N) (m : meta) (xs : list xattr)
+with parse_children (ord : bool) (fuel : nat) (l : list pelem) (es : N) (m : meta) (xs : list xattr)
                     (prev : option bytes) (acc : list seen) : option (node * N * list pelem) :=
   match fuel with
   | O => None
@@ -309,9 +329,9 @@ with parse_children (fuel : nat) (l : list pelem) (es : N) (m : meta) (xs : list
     match l with
     | (fs, _, Filename _ name) :: l1 =>
         if negb (valid_name name) then None
-        else if negb (match prev with None => true | Some p => bytes_ltb p name end) then None
-        else match parse_node f l1 with
-             | Some (c, cend, l2) => parse_children f l2 es m xs (Some name) (acc ++ [(name, fs, cend, c)])
+        else if negb (order_ok ord prev name) then None
+        else match parse_node ord f l1 with
+             | Some (c, cend, l2) => parse_children ord f l2 es m xs (Some name) (acc ++ [(name, fs, cend, c)])
              | None => None
              end
     | (gs, ge, Goodbye _ items) :: l2 =>
@@ -323,21 +343,24 @@ with parse_children (fuel : nat) (l : list pelem) (es : N) (m : meta) (xs : list
   end.
 
 (* the whole archive: exactly one node *)
-Definition validate (b : bytes) : option node :=
+Definition validate (ord : bool) (b : bytes) : option node :=
   match scan (S (length b)) b 0 with
   | None => None
   | Some l =>
-      match parse_node (S (length l)) l with
+      match parse_node ord (S (length l)) l with
       | Some (t, _, []) => Some t
       | _ => None
       end
   end.
 
-(* what a casync-rule reader makes of the xattr values desync writes: one more NUL (see take_xattrs) *)
+(* what a casync-rule reader makes of what desync writes: every xattr value one NUL longer (see
+   take_xattrs), FIFOs and sockets inside directories left out (tar() skips them) *)
 Fixpoint casync_view (t : node) : node :=
   let vx := map (fun kv : xattr => (fst kv, snd kv ++ [0])) in
   match t with
-  | NDir m xs cs => NDir m (vx xs) (map (fun nc : bytes * node => (fst nc, casync_view (snd nc))) cs)
+  | NDir m xs cs =>
+      NDir m (vx xs) (flat_map (fun nc : bytes * node =>
+                                  if is_other (snd nc) then [] else [(fst nc, casync_view (snd nc))]) cs)
   | NFile m xs d => NFile m (vx xs) d
   | NSymlink m xs tg => NSymlink m (vx xs) tg
   | NDevice m xs c ma mi => NDevice m (vx xs) c ma mi
